@@ -579,6 +579,6 @@ MANIFEST = dict(
          '_SFTPFileCopier run against a server model with asyncio.wait replaced by a solver-chosen completion order (one or two completions per '
          'wait), solver-chosen short-read counts, EOF inside the requested range and one optional failing request: the result equals the source '
          'bytes over the requested range, every byte is written exactly once at its offset, failures and a source shorter than announced raise, '
-         'no request leaves the range, at most max_requests are outstanding; SFTPClientFile tracks byte offsets across text/bytes writes and seeks.',
+         'no request leaves the range, at most max_requests are outstanding; SFTPClientFile tracks byte offsets across text/bytes writes and seeks; the recursive copy driver on an in-memory tree (files, directories, symlinks, follow_symlinks on/off) delivers exactly the bytes of the file each entry names.',
     note='Small sizes (<= 8 bytes, block size <= 3, <= 3 outstanding, 6 scheduling choices) sharded concretely; local file '
          'glue of get/put/glob and real servers are outside. Trusted: CrossHair, z3, the asyncio shim and server model in props/C12.py.')
